@@ -94,7 +94,13 @@ func migrateApplyRun(cmd *cobra.Command, args []string, flags migrateApplyFlags,
 		return err
 	}
 	opts = append(opts, migrate.WithOperatorVersion(operatorVersion()), migrate.WithLogger(report))
-	ex, err := migrate.NewExecutor(client.Driver, dir, rrw, opts...)
+	// Computing the pending files may write a baseline
+	// revision, which should not happen on dry-run.
+	prrw := rrw
+	if flags.dryRun {
+		prrw = &dryRunRevisions{rrw}
+	}
+	ex, err := migrate.NewExecutor(client.Driver, dir, prrw, opts...)
 	if err != nil {
 		return err
 	}
